@@ -94,6 +94,11 @@ case("n07-throw-through-for-in-in-for-of", "found by this check: an exception th
                                      ("SBlock", [("SThrow", ("ENew", ident("TypeError"), [("Arg", s("x"))]))]))]))],
               (pid("e"), [pr(member(ident("e"), "name"))]), None)],
             funcs=[func(name="g", kind="FGenerator", body=[("STry", [("SYield", None, None, num(1), False)], None, [pr(s("gf"))])])]))
+case("n08-with-assignment-to-outer-const-name", "found by this check: inside `with (o)` an assignment to a name that o has but that is also an outer const is rejected statically (TypeError) instead of setting o's property",
+     script([let("o", ("EObject", [("PInit", ("PKStr", u("a")), s("a"))]), "KConst"),
+             ("STry", [("SWith", ident("o"), ("SBlock", [("SExpr", ("EAssign", pid("a"), num(-1))), pr(s("ok"), member(ident("o"), "a"))]))],
+              (pid("e"), [pr(s("W"), member(ident("e"), "name"))]), None),
+             let("a", num(1), "KConst")]))
 # agreeing smoke programs
 case("s01-smoke", "let / for / try / finally / throw / print / completion value",
      script([let("x", num(1)),
@@ -111,7 +116,12 @@ case("s02-generator-finally", "generator return() runs finally; for-of closes th
 if __name__ == "__main__":
     out = os.path.join(os.path.dirname(HERE), "corpus", "C01")
     os.makedirs(out, exist_ok=True)
+    # cases whose class is not yet in known_findings.json (or fixed): kept here, written only once the coordinator accepted the entry,
+    # so that the default run is not deterministically red for a finding that is already reported (fixes.d/C01-known-findings.proposed.json)
+    PENDING = set()
     for c in CASES:
+        if c["name"] in PENDING:
+            continue
         c["js"] = to_js(c["prog"])
         encode_prog(c["prog"])
         with open(os.path.join(out, c["name"] + ".json"), "w") as f:
